@@ -76,6 +76,8 @@ def deconv1d_cases(draw, tier="quick"):
         k = draw(st.integers(2, dim))
         c["PSF_array"] = draw(gen.vec(k, 0.0, 1.0))
         c["PSF_array"][0] += 0.5  # asymmetric and non-zero
+    c["positional"] = draw(st.booleans())
+    c["param_type"] = draw(st.sampled_from([None, None, "float32", "int64", "float64"]))
     if c["phantom"] == "array":
         c["phantom_array"] = draw(gen.vec(dim, 0.1, 2))
     return c
@@ -84,6 +86,8 @@ def deconv1d_cases(draw, tier="quick"):
 def run_deconv1d(c, rec):
     import cuqi
     dim = c["dim"]
+    if c.get("param_type") == "float32" and c["PSF"] != "array" and c["PSF_param"] is not None:
+        c = dict(c, PSF_param=float(np.float32(c["PSF_param"])))      # (the number that np.float32 holds, for the reference)
     P = A(c["PSF_array"]) if c["PSF"] == "array" else psf1d(c["PSF"], c["PSF_size"] or dim, c["PSF_param"])
     asym = maxdiff(P, P[::-1]) > 1e-12 or len(P) % 2 == 0
     tags = {"problem": "Deconvolution1D", "PSF": c["PSF"], "BC": c["BC"].lower(), "noise": c["noise_type"].lower(),
@@ -96,8 +100,17 @@ def run_deconv1d(c, rec):
     if c["PSF_size"] is not None and c["PSF"] != "array":
         kw["PSF_size"] = c["PSF_size"]
     e = A(c["e"])
+    # the PSF parameter may come out of numpy (np.float32 / np.int64 / a 0-d array element of np.arange): it is the same number
+    if c.get("param_type") and c["PSF"] != "array" and c["PSF_param"] is not None:
+        kw["PSF_param"] = {"float32": np.float32, "int64": np.int64, "float64": np.float64}[c["param_type"]](c["PSF_param"]) \
+            if (c["param_type"] != "int64" or float(c["PSF_param"]) == int(c["PSF_param"])) else c["PSF_param"]
+    ctor = cuqi.testproblem.Deconvolution1D
+    if c.get("positional") and c["PSF"] != "array" and "PSF_size" in kw:
+        # the first five arguments by position in their documented order: dim, PSF, PSF_param, PSF_size, BC
+        head = [kw.pop(k) for k in ("dim", "PSF", "PSF_param", "PSF_size", "BC")]
+        ctor = (lambda **rest: cuqi.testproblem.Deconvolution1D(*head, **rest))
     with scripted_noise_ctx(e):
-        refused, tp = refuses(lambda: cuqi.testproblem.Deconvolution1D(**kw))
+        refused, tp = refuses(lambda: ctor(**kw))
     if refused:
         # scaled noise with a vanishing exact datum has zero variance: the constructor refuses (no wrong result)
         require(c["noise_type"] != "gaussian", f"constructing Deconvolution1D failed: {tp}")
@@ -446,6 +459,17 @@ def run_pde(c, rec):
         rec.inconc("non_positive_or_degenerate_conductivity")
     else:
         require(close(model.forward(p), observe(solve(fp)), tol), f"{which}: model.forward(p) is not the PDE solution map of par2fun(p)")
+    # object life cycle: a deep copy of the problem is the same problem - its model applied to its own (function-valued) exact
+    # solution gives the exact data, and so does the original's model applied to the copy's exact solution
+    import copy as _copy
+    refused, tp2 = refuses(lambda: _copy.deepcopy(tp))
+    if not refused:
+        for label, mdl, xs in (("copy's model on the copy's exactSolution", tp2.model, tp2.exactSolution),
+                               ("original's model on the copy's exactSolution", tp.model, tp2.exactSolution),
+                               ("copy's model on the original's exactSolution", tp2.model, tp.exactSolution)):
+            r_, yy = refuses(lambda: np.asarray(mdl.forward(xs), dtype=float))
+            require(not r_ and close(yy, ye, tol), f"{which}: after copy.deepcopy of the problem, the {label} is not the exact data", got=None if r_ else yy, want=ye)
+        rec.count("deepcopy_checked")
     m = len(ye)
     sigma = np.linalg.norm(ye) / c["SNR"]
     require(close(np.asarray(tp.data) - np.asarray(tp.exactData), sigma * e[:m], 1e-7),
